@@ -342,3 +342,31 @@ PLAN["C13"] = dict(
     outside="more results; conditioning of (value,error)<->(sum,sumsq) in floating point (exact reals)",
     assumptions=COMMON_ASSUME[:2], jobs=HELPER_JOBS)
 PLAN["C12"]["jobs"] = PLAN["C12"]["jobs"] + only(HELPER_JOBS, lambda j: j["cfg"]["ob"] == 0 and "quick" in j["tiers"])
+
+DIST_JOBS = [
+    S("h_distribution", dict(ob=0, bx=1, N=1), ["bin.holds_exactly"]),
+    S("h_distribution", dict(ob=0, bx=2, N=1), ["bin.holds_exactly", "midpoints.slot_order"]),
+    S("h_distribution", dict(ob=0, bx=3, N=1), ["bin.holds_exactly"]),
+    S("h_distribution", dict(ob=0, bx=2, N=2), ["bin.holds_exactly"]),
+    S("h_distribution", dict(ob=0, bx=2, N=1, xk=1), ["bin.holds_exactly"]),
+    S("h_distribution", dict(ob=0, bx=2, N=1, xk=2), ["bin.holds_exactly"]),
+    S("h_distribution", dict(ob=0, bx=2, N=1, xk=3), ["bin.holds_exactly"]),
+    S("h_distribution", dict(ob=1, bx=2, by=2, N=1), ["bin.holds_exactly", "midpoints.slot_order"]),
+    S("h_distribution", dict(ob=1, bx=2, by=1, N=1, xk=1), ["bin.holds_exactly"]),
+    S("h_distribution", dict(ob=1, bx=2, by=2, N=1, yk=1), ["bin.holds_exactly"]),
+    S("h_distribution", dict(ob=1, bx=2, by=2, N=1, yk=3), ["bin.holds_exactly"]),
+    S("h_distribution", dict(ob=1, bx=1, by=2, N=1, xk=3), ["bin.holds_exactly"]),
+    S("h_distribution", dict(ob=0, bx=3, N=2), ["bin.holds_exactly"], tiers=T),
+    S("h_distribution", dict(ob=0, bx=4, N=1), ["bin.holds_exactly"], tiers=T),
+    S("h_distribution", dict(ob=1, bx=3, by=2, N=1), ["bin.holds_exactly"], tiers=T),
+    S("h_distribution", dict(ob=1, bx=2, by=2, N=2), ["bin.holds_exactly"], tiers=T, split=8),
+]
+PLAN["C11"] = dict(
+    functions=["hep::accumulator<T,true>::invoke", "hep::accumulator<T,true>::add_to_1d_distribution", "hep::accumulator<T,true>::add_to_2d_distribution",
+               "hep::accumulator<T,true>::result", "hep::projector<T>::add", "hep::distribution_parameters<T>", "hep::mid_points_x", "hep::mid_points_y"],
+    bounds={"quick": "1-d with 1..3 bins, 2-d with up to 2x2 bins, 1-2 calls; range end points in [-1e3,1e3], coordinates in [-1e6,1e6] or +inf/-inf/NaN, "
+                     "projected value, integrand value and point weight symbolic", "thorough": "1-d 4 bins, 2-d 3x2, 2 calls in 2-d"},
+    outside="more bins / calls / several distributions per integrand; rounding at bin edges (exact reals decide the half-open interval exactly, the "
+            "property allows either neighbour within one rounding error)",
+    assumptions=COMMON_ASSUME[:1] + ["T -> size_t conversion of NaN, infinity, values <= -1 or >= 2^64 is flagged as undefined behaviour (UB-class violation)"],
+    jobs=DIST_JOBS + only(ITERATION_JOBS, lambda j: j["cfg"].get("dist", 0) != 0 and "quick" in j["tiers"]))
